@@ -54,6 +54,7 @@ func (_this *Reader) Init(config *configuration.Configuration) {
 
 func (_this *Reader) SetReader(reader io.Reader) {
 	_this.reader = &steadyReader{reader: reader}
+	_this.bytesRead = 0
 }
 
 // steadyReader adapts any io.Reader to the stricter behavior the decoding code
